@@ -72,6 +72,29 @@ def direct(m):
     return {"k": "direct", "days": list(m.keys()), "us": list(m.values())}
 
 
+def direct_steps(first, *later):
+    """a dated calendar configured in steps: the constructor, then set_units() per later group (a later
+    entry for the same day replaces the earlier one - Eval takes the last entry of a day)"""
+    groups = [first] + list(later)
+    e = {"k": "direct", "days": [d for g in groups for d in g.keys()], "us": [u for g in groups for u in g.values()],
+         "cut": []}
+    n = 0
+    for g in groups[:-1]:
+        n += len(g)
+        e["cut"].append(n)
+    return e
+
+
+def func(name, c):
+    """calendar.apply(f) with one of the named functions of FUNCS (they accept None)"""
+    return {"k": "func", "fn": name, "c": c}
+
+
+FUNCS = {"half": lambda x: None if x is None else x / 2,
+         "orzero": lambda x: x or 0,
+         "plus1": lambda x: None if x is None else x + 1}
+
+
 def fixed(u, s=None, e=None):
     return {"k": "fixed", "u": u, "hs": s is not None, "s": s or 0, "he": e is not None, "e": e or 0}
 
@@ -104,8 +127,15 @@ VALID_LEAVES = [
     fixed(q(0)),
     fixed(q(3, 2), 5 * DAY, None),
     fixed(q(4), S1, S1),
+    direct_steps({1: q(8), 2: q(0)}, {4: q(3), 2: q(5)}),
+    direct_steps({}, {3: q(1, 2), 8: q(2)}, {3: q(0)}),
+    func("half", weekly_list([0, 2, 4], q(1, 2), S1, E1)),
+    func("orzero", direct({1: q(8), 2: q(0), 4: q(3)})),
+    func("plus1", fixed(q(2), S1, E1)),
 ]
 INVALID_LEAVES = [
+    direct_steps({1: q(8)}, {2: q(-1)}),
+    func("half", fixed(q(-1))),
     weekly_list([0, 7], q(8)),
     weekly_list([-1], q(8)),
     weekly_list([0, 1], q(-1)),
@@ -138,8 +168,17 @@ def build(e):
         return pj.WeeklyCalendar(units_per_day={d: num(u) for d, u in zip(e["days"], e["us"])}, **kw)
     if k == "direct":
         # keys carry a time of day: the class must normalise them to the day
-        return pj.DirectCalendar({inst(d * DAY + (540 if i % 2 else 0), 250000 if i % 3 == 0 else 0): num(u)
-                                  for i, (d, u) in enumerate(zip(e["days"], e["us"]))})
+        items = [(inst(d * DAY + (540 if i % 2 else 0), 250000 if i % 3 == 0 else 0), num(u))
+                 for i, (d, u) in enumerate(zip(e["days"], e["us"]))]
+        cuts = [0] + list(e.get("cut") or []) + [len(items)]
+        if len(cuts) == 2:
+            return pj.DirectCalendar(dict(items))
+        cal = pj.DirectCalendar(dict(items[:cuts[1]])) if cuts[1] else pj.DirectCalendar()
+        for a, b in zip(cuts[1:], cuts[2:]):
+            cal.set_units(dict(items[a:b]))
+        return cal
+    if k == "func":
+        return build(e["c"]).apply(FUNCS[e["fn"]])
     if k == "fixed":
         return pj.FixedCalendar(num(e["u"]), inst(e["s"]) if e["hs"] else None, inst(e["e"]) if e["he"] else None)
     if k == "num":
@@ -166,6 +205,8 @@ def bounds(e, acc):
     elif e["k"] == "op":
         bounds(e["l"], acc)
         bounds(e["r"], acc)
+    elif e["k"] == "func":
+        bounds(e["c"], acc)
     return acc
 
 
@@ -175,6 +216,8 @@ def end_bounds(e, acc):
     elif e["k"] == "op":
         end_bounds(e["l"], acc)
         end_bounds(e["r"], acc)
+    elif e["k"] == "func":
+        end_bounds(e["c"], acc)
     return acc
 
 
@@ -314,5 +357,5 @@ def evidence(prop, res):
     }
     assumptions = ["TLC and the float->rational conversion (denominator <= 4096, 1e-9) are trusted",
                    "division by an operand that is 0 on the probed date is outside the property's domain",
-                   "only built-in calendar classes; FuncCalendar callbacks are arbitrary code"]
+                   "FuncCalendar callbacks are arbitrary code: three named functions (x/2, x or 0, x+1; None passed through) stand for them"]
     return {"level": "model_checking", "coverage": coverage, "assumptions": assumptions}
